@@ -115,8 +115,14 @@ Definition c15_pa_allocate (g : c15_geom) (p : c15_pool) (n : N) : c15_res (c15_
   if n =? 1 then c15_pool_allocate g p else C15BadAlloc.
 
 (* ------------------------------------------------------------------ histories *)
-Inductive c15_op := OpAlloc (n : N) | OpFree (i : nat).     (* OpFree i: release the i-th live block (allocation order) *)
-Inductive c15_obs := ObsBlock (c : nat) (off : N) | ObsBadAlloc | ObsFreed | ObsPrecond | ObsOutOfFuel | ObsAbort.
+Inductive c15_op :=
+  | OpAlloc (n : N)
+  | OpFree (i : nat)                 (* release the i-th live block (allocation order) with its own count *)
+  | OpFreeN (i : nat) (n : N)        (* deallocate(p_i, n) with an explicit count (PoolAllocator: 0 = no-op; debug: 0 = "unknown") *)
+  | OpFreeInvalid (null : bool)      (* release a null pointer / a pointer that never came from the allocator *)
+  | OpCopy (k : N)                   (* copy-construct (0) / converting-construct (1) / rebind (2) the allocator and allocate from the copy *)
+  | OpFreeBad (i : nat) (k : N).     (* debug allocator: wrong type (0), interior pointer (1), double free of the i-th released block (2, KEEP mode) *)
+Inductive c15_obs := ObsBlock (c : nat) (off : N) | ObsBadAlloc | ObsFreed | ObsPrecond | ObsOutOfFuel | ObsAbort | ObsNoop | ObsCopyOk.
 
 Fixpoint c15_remove_nth {A} (i : nat) (l : list A) : list A :=
   match l, i with
@@ -128,6 +134,20 @@ Fixpoint c15_remove_nth {A} (i : nat) (l : list A) : list A :=
 Record c15_client := C15Client { cl_pool : c15_pool; cl_live : list c15_slot }.
 Definition c15_client_empty := C15Client c15_pool_empty [].
 
+Definition c15_step_free (g : c15_geom) (st : c15_client) (i : nat) : c15_client * c15_obs :=
+  match nth_error (cl_live st) i with
+  | None => (st, ObsPrecond)                   (* not a live block: undefined behaviour in C++ *)
+  | Some b => match c15_pool_free g (cl_pool st) b with
+              | C15Ok p' => (C15Client p' (c15_remove_nth i (cl_live st)), ObsFreed)
+              | C15BadAlloc => (st, ObsBadAlloc)
+              | _ => (st, ObsPrecond)
+              end
+  end.
+
+(* PoolAllocator(const PoolAllocator&), PoolAllocator(const PoolAllocator<U,u>&), rebind<U>::other(a): "we allow copying but
+   never copy the pool": the new allocator starts with an empty pool; its first block is slot 0 of a chunk of its own *)
+Definition c15_pa_copy (p : c15_pool) : c15_pool := c15_pool_empty.
+
 Definition c15_step (g : c15_geom) (st : c15_client) (op : c15_op) : c15_client * c15_obs :=
   match op with
   | OpAlloc n =>
@@ -138,15 +158,21 @@ Definition c15_step (g : c15_geom) (st : c15_client) (op : c15_op) : c15_client 
       | C15Precond => (st, ObsPrecond)
       | C15Abort => (st, ObsAbort)
       end
-  | OpFree i =>
-      match nth_error (cl_live st) i with
-      | None => (st, ObsPrecond)                   (* not a live block: undefined behaviour in C++ *)
-      | Some b => match c15_pool_free g (cl_pool st) b with
-                  | C15Ok p' => (C15Client p' (c15_remove_nth i (cl_live st)), ObsFreed)
-                  | C15BadAlloc => (st, ObsBadAlloc)
-                  | _ => (st, ObsPrecond)
-                  end
+  | OpFree i => c15_step_free g st i
+  | OpFreeN i n =>                               (* for(size_t i=0; i<n; i++) memoryPool_.free(p++); *)
+      if n =? 0 then (match nth_error (cl_live st) i with Some _ => (st, ObsNoop) | None => (st, ObsPrecond) end)
+      else if n =? 1 then c15_step_free g st i
+      else (st, ObsPrecond)                      (* frees p+1, ...: blocks that were never handed out together *)
+  | OpFreeInvalid null =>                        (* free(0): "Tried to free null pointer" + bad_alloc; foreign pointer: chunk search fails *)
+      if null then (st, ObsBadAlloc)
+      else match c15_pool_free g (cl_pool st) (S (length (p_chunks (cl_pool st))), 0) with
+           | C15BadAlloc => (st, ObsBadAlloc) | _ => (st, ObsPrecond) end
+  | OpCopy _ =>
+      match c15_pool_allocate g (c15_pa_copy (cl_pool st)) with
+      | C15Ok ((O, 0), _) => (st, ObsCopyOk)     (* the original is untouched *)
+      | _ => (st, ObsPrecond)
       end
+  | OpFreeBad _ _ => (st, ObsPrecond)
   end.
 
 Fixpoint c15_run (g : c15_geom) (st : c15_client) (ops : list c15_op) : list c15_obs * c15_client :=
@@ -162,7 +188,18 @@ Fixpoint c15_ops_ok (nlive : nat) (ops : list c15_op) : bool :=
   | [] => true
   | OpAlloc n :: r => c15_ops_ok (if n =? 1 then S nlive else nlive) r
   | OpFree i :: r => (i <? nlive)%nat && c15_ops_ok (pred nlive) r
+  | OpFreeN i n :: r => (i <? nlive)%nat && (n <=? 1) && c15_ops_ok (if n =? 1 then pred nlive else nlive) r
+  | OpFreeInvalid _ :: r => c15_ops_ok nlive r
+  | OpCopy _ :: r => c15_ops_ok nlive r
+  | OpFreeBad _ _ :: r => false
   end.
+
+(* PoolAllocator::max_size() ("Not correctly implemented, yet!") *)
+Definition c15_pa_max_size : N := 1.
+(* operator==: two PoolAllocators of the same value type are interchangeable only if they are the same object; allocators of
+   different value types never; MallocAllocator / DebugAllocator (stateless) always *)
+Definition c15_pa_equal (same_type same_object : bool) : bool := same_type && same_object.
+Definition c15_stateless_equal : bool := true.
 
 (* ------------------------------------------------------------------ MallocAllocator / AlignedAllocator *)
 Definition c15_max_size (sT : N) : N := c15_size_max / sT.       (* size_type(-1) / sizeof(T) *)
@@ -218,7 +255,7 @@ Definition c15_dbg_page_of_gen (fx : bool) (page ptr : N) : N :=
   let r := ptr mod page in
   if fx && (r =? 0) then ptr - page else ptr - r.
 
-Inductive c15_dbg_err := DbgNotFound | DbgSize | DbgPtr | DbgType.
+Inductive c15_dbg_err := DbgNotFound | DbgSize | DbgPtr | DbgType | DbgNotFree | DbgLost.
 
 Fixpoint c15_dbg_dealloc_search (page_ptr ty ptr n : N) (l : list c15_dbg_info)
   : c15_dbg_err + list c15_dbg_info :=
@@ -253,6 +290,12 @@ Inductive c15_dbg_obs := DObsOk (off : N) (cap : N) (guard_at_end : bool) | DObs
 
 Record c15_dbg_state := C15DbgSt { ds_list : list c15_dbg_info; ds_live : list (N * N); ds_next : N }.  (* live: (ptr, n) *)
 
+Definition c15_dbg_step_free (fixd : bool) (page : N) (st : c15_dbg_state) (i : nat) (ty ptr n : N) : c15_dbg_state * c15_dbg_obs :=
+  match c15_dbg_deallocate_gen fixd page ty ptr n (ds_list st) with
+  | inr l' => (C15DbgSt l' (c15_remove_nth i (ds_live st)) (ds_next st), DObsFreed)
+  | inl e => (st, DObsAbort e)         (* std::abort(): the run ends here *)
+  end.
+
 Definition c15_dbg_step (fixa fixd : bool) (page sT : N) (st : c15_dbg_state) (op : c15_op) : c15_dbg_state * c15_dbg_obs :=
   match op with
   | OpAlloc n =>
@@ -266,12 +309,25 @@ Definition c15_dbg_step (fixa fixd : bool) (page sT : N) (st : c15_dbg_state) (o
   | OpFree i =>
       match nth_error (ds_live st) i with
       | None => (st, DObsPrecond)
-      | Some (ptr, n) =>
-          match c15_dbg_deallocate_gen fixd page 0 ptr n (ds_list st) with
-          | inr l' => (C15DbgSt l' (c15_remove_nth i (ds_live st)) (ds_next st), DObsFreed)
-          | inl e => (st, DObsAbort e)         (* std::abort(): the run ends here *)
-          end
+      | Some (ptr, n) => c15_dbg_step_free fixd page st i 0 ptr n
       end
+  | OpFreeN i n' =>                              (* deallocate(p, n') with a count chosen by the caller; 0 = default argument *)
+      match nth_error (ds_live st) i with
+      | None => (st, DObsPrecond)
+      | Some (ptr, _) => c15_dbg_step_free fixd page st i 0 ptr n'
+      end
+  | OpFreeInvalid null =>                        (* a pointer into no mapping of the manager (0, or below the first mapping) *)
+      match c15_dbg_deallocate_gen fixd page 0 (if null then 0 else 8 * page + 8) 0 (ds_list st) with
+      | inl e => (st, DObsAbort e) | inr _ => (st, DObsPrecond) end
+  | OpFreeBad i k =>
+      match nth_error (ds_live st) i with
+      | None => (st, DObsPrecond)
+      | Some (ptr, n) =>
+          if k =? 0 then c15_dbg_step_free fixd page st i 1 ptr n             (* deallocate<U>(p) with U <> T *)
+          else if k =? 1 then c15_dbg_step_free fixd page st i 0 (ptr + sT) n (* pointer to the second element *)
+          else (st, DObsPrecond)
+      end
+  | OpCopy _ => (st, DObsPrecond)
   end.
 
 Fixpoint c15_dbg_run (fixa fixd : bool) (page sT : N) (st : c15_dbg_state) (ops : list c15_op) : list c15_dbg_obs :=
@@ -284,6 +340,81 @@ Fixpoint c15_dbg_run (fixa fixd : bool) (page sT : N) (st : c15_dbg_state) (ops 
                end
   end.
 Definition c15_dbg_state0 (page : N) := C15DbgSt [] [] (16 * page).
+(* the same run, returning the final state (None: the run was aborted) *)
+Fixpoint c15_dbg_final (fixa fixd : bool) (page sT : N) (st : c15_dbg_state) (ops : list c15_op) : option c15_dbg_state :=
+  match ops with
+  | [] => Some st
+  | op :: r => let '(st1, o) := c15_dbg_step fixa fixd page sT st op in
+               match o with
+               | DObsAbort _ => None
+               | _ => c15_dbg_final fixa fixd page sT st1 r
+               end
+  end.
+
+(* ~AllocationManager(): every mapping still listed is unmapped; entries still in use => allocation_error("lost allocations").
+   Result: (mappings released, aborted?) *)
+Definition c15_dbg_destroy (l : list c15_dbg_info) : list N * bool :=
+  (map d_page_ptr l, negb (Nat.eqb (length l) 0)).       (* without DEBUG_ALLOCATOR_KEEP every listed entry is in use *)
+
+(* ---- DEBUG_ALLOCATOR_KEEP=1: deallocate keeps the entry (not_free := false) and the mapping (PROT_NONE): double free is detected *)
+Definition c15_dbgk_entry := (c15_dbg_info * bool)%type.
+Fixpoint c15_dbgk_search (page_ptr ty ptr n : N) (l : list c15_dbgk_entry) : c15_dbg_err + list c15_dbgk_entry :=
+  match l with
+  | [] => inl DbgNotFound
+  | (it, nf) :: r =>
+      if d_page_ptr it =? page_ptr then
+        if negb (n =? 0) && negb (n =? d_size it) then inl DbgSize
+        else if negb (ptr =? d_ptr it) then inl DbgPtr
+        else if negb nf then inl DbgNotFree                              (* ALLOCATION_ASSERT(true == it->not_free) *)
+        else if negb (ty =? d_type it) then inl DbgType
+        else inr ((it, false) :: r)
+      else match c15_dbgk_search page_ptr ty ptr n r with
+           | inl e => inl e | inr r' => inr ((it, nf) :: r') end
+  end.
+Definition c15_dbgk_deallocate (page ty ptr n : N) (l : list c15_dbgk_entry) :=
+  c15_dbgk_search (c15_dbg_page_of_gen true page ptr) ty ptr n l.
+
+Record c15_dbgk_state := C15DbgK { dk_list : list c15_dbgk_entry; dk_live : list (N * N); dk_dead : list (N * N); dk_next : N }.
+Definition c15_dbgk_step (page sT : N) (st : c15_dbgk_state) (op : c15_op) : c15_dbgk_state * c15_dbg_obs :=
+  match op with
+  | OpAlloc n =>
+      match c15_dbg_allocate_gen true page 0 sT n (c15_sys_mmap (dk_next st)) with
+      | C15Ok (ai, guardpage) =>
+          (C15DbgK (dk_list st ++ [(ai, true)]) (dk_live st ++ [(d_ptr ai, n)]) (dk_dead st)
+                   (dk_next st + c15_wrap (d_pages ai * page) + page),
+           DObsOk (d_ptr ai mod page) (d_capacity ai) (guardpage =? d_ptr ai + d_capacity ai))
+      | _ => (st, DObsBadAlloc)
+      end
+  | OpFree i =>
+      match nth_error (dk_live st) i with
+      | None => (st, DObsPrecond)
+      | Some (ptr, n) =>
+          match c15_dbgk_deallocate page 0 ptr n (dk_list st) with
+          | inr l' => (C15DbgK l' (c15_remove_nth i (dk_live st)) (dk_dead st ++ [(ptr, n)]) (dk_next st), DObsFreed)
+          | inl e => (st, DObsAbort e)
+          end
+      end
+  | OpFreeBad j _ =>                               (* release the j-th released block once more *)
+      match nth_error (dk_dead st) j with
+      | None => (st, DObsPrecond)
+      | Some (ptr, n) =>
+          match c15_dbgk_deallocate page 0 ptr n (dk_list st) with
+          | inr l' => (C15DbgK l' (dk_live st) (dk_dead st) (dk_next st), DObsFreed)
+          | inl e => (st, DObsAbort e)
+          end
+      end
+  | _ => (st, DObsPrecond)
+  end.
+Fixpoint c15_dbgk_run (page sT : N) (st : c15_dbgk_state) (ops : list c15_op) : list c15_dbg_obs :=
+  match ops with
+  | [] => []
+  | op :: r => let '(st1, o) := c15_dbgk_step page sT st op in
+               match o with
+               | DObsAbort _ => [o]
+               | _ => o :: c15_dbgk_run page sT st1 r
+               end
+  end.
+Definition c15_dbgk_state0 (page : N) := C15DbgK [] [] [] (16 * page).
 
 (* ------------------------------------------------------------------ debugalign.hh: isAligned
    p == std::align(align, align, aligned_p, space = 2*align); libstdc++:
